@@ -3,8 +3,9 @@ package main
 // Property -> cone of functions under contract, configurations, trusted base.
 
 type ConeItem struct {
-	Pkg   string   // package path suffix
-	Funcs []string // contract keys; empty = every contract of the package
+	Pkg     string   // package path suffix
+	Funcs   []string // contract keys; empty = every contract of the package
+	Exclude []string // contract keys left out when Funcs is empty
 }
 
 type PropSpec struct {
@@ -40,6 +41,8 @@ var edVerify = ConeItem{Pkg: ".", Funcs: []string{"verify", "Verify", "VerifyWit
 var edSign = ConeItem{Pkg: ".", Funcs: []string{"NewKeyFromSeed", "sign", "Sign", "(PrivateKey).Sign", "(*Options).unwrap", "checkHash", "(*Options).HashFunc"}}
 var edKeys = ConeItem{Pkg: ".", Funcs: []string{"GenerateKey", "NewKeyFromSeed", "(PrivateKey).Public", "(PrivateKey).Seed", "(PrivateKey).Equal", "(PublicKey).Equal"}}
 var edAll = ConeItem{Pkg: "."}
+var edNoBatch = ConeItem{Pkg: ".", Exclude: []string{"VerifyBatch", "isNeutralVartime", "multiScalarmultVartime"}}
+var edBatch = ConeItem{Pkg: ".", Funcs: []string{"VerifyBatch", "isNeutralVartime", "multiScalarmultVartime", "verifyWithOptionsNoPanic", "scMinimal", "isSmallOrderVartime", "checkHash", "(*Options).unwrap", "(*Options).HashFunc"}}
 var xAll = ConeItem{Pkg: "extra/x25519"}
 
 const techGovc = "contract-based deductive verification of the real Go code: VCs from go/ssa (govc), contracts in //@ comment files, obligations discharged by z3/cvc5, an exact polynomial normaliser (alg), a linear-form interval back end (lin), ground evaluation of table facts and provenance (flow) checks"
@@ -69,13 +72,21 @@ var props = map[string]*PropSpec{
 		Trusted: append([]string{"RFC 8032 5.1.5/5.1.6 transcribed as the spec functions sec_a, nonce, hchal (byte-level clamping, SHA-512 inputs in RFC order); encpt(mulB(k)) stands for the encoding of [k]B"}, bridgeTrusted...),
 		Assumptions: []string{"in the default (amd64) configuration the assembly table lookup has an assumed contract; the noasm/force32bit configurations verify the Go lookup against the ground-validated table"},
 	},
+	"C06": {
+		ID: "C06", Cone: []ConeItem{edBatch, {Pkg: "internal/ge25519", Funcs: []string{"UnpackNegativeVartime", "CofactorMultiply", "IsNeutralVartime"}}, {Pkg: "internal/modm", Funcs: []string{"Expand", "Mul", "Add"}}}, Quick: twoLayouts, Thorough: allSix, Technique: techGovc,
+		Trusted: []string{
+			"multiScalarmultVartime and the Bos-Coster heap are NOT verified (trusted contract: memory safety and magnitudes only); therefore the batch equation itself -- that the point tested for neutrality is the randomised combination of the entries -- is not proved, and neither is the probabilistic soundness (a batch passing the equation consists of valid entries except with probability 2^-120; M7), which no deductive verifier can state",
+			"what IS proved for every batch length, every chunking and every mixture of entries: (G1) an entry that single verification accepts is never reported false -- equivalently every entry reported false is rejected by single verification; (G2) the summary flag is exactly the conjunction of the entries; the result vector is fresh and has one element per entry; (S1) when a chunk is decided by the batch equation, every entry of it has passed every non-equation acceptance condition of single verification under the same options (lengths, option/hash admissibility, decodability of A and R, small-order rejection unless ZIP-215); entries decided by the fallback or the remainder loop carry exactly single verification's verdict",
+		},
+		Assumptions: []string{"the clause 'reported true => single verification accepts' for entries of a chunk accepted by the batch equation rests on the two unproved items above; a change that corrupts the scalars or points handed to multiScalarmultVartime (e.g. a wrong hash prefix in the batch path) is therefore NOT detected by this check"},
+	},
 	"C07": {
 		ID: "C07", Cone: []ConeItem{{Pkg: ".", Funcs: []string{"(*Options).unwrap", "checkHash", "(*Options).HashFunc", "verifyWithOptionsNoPanic", "VerifyWithOptions", "verify", "sign", "(PrivateKey).Sign", "Sign"}}}, Quick: twoLayouts, Thorough: allSix, Technique: techGovc,
 		Trusted: []string{"M6 and collision resistance of SHA-512 for 'never accepted under a different pair'; what is proved is that the hashed string is dom2(f,c) || R || A || M with the RFC 8032 encoding of (f, len(c), c), the variant/context selection table, and the exact refusal conditions"},
 		Assumptions: []string{"VerifyBatch's context error / false entries are not covered (not under contract)"},
 	},
 	"C08": {
-		ID: "C08", Cone: []ConeItem{edAll, xAll, geAll, modmAll, curveAll}, Quick: []string{"default", "force32bit", "noasm", "noasm,appengine", "force32bit,appengine"}, Thorough: allSix, Ground: true,
+		ID: "C08", Cone: []ConeItem{edNoBatch, xAll, geAll, modmAll, curveAll}, Quick: []string{"default", "force32bit", "noasm", "noasm,appengine", "force32bit,appengine"}, Thorough: allSix, Ground: true,
 		Technique: techGovc + "; C08: the contracts of the exported functions are written once (config any) in terms of configuration-independent spec functions; every build configuration's code is verified against them, so any two configurations return the same bytes",
 		Trusted: append([]string{
 			"observational identity is a corollary: each configuration is proved equal to the same mathematical specification, not compared pairwise",
